@@ -69,7 +69,7 @@ fn boundary(rng: &mut Rng, kind: char) -> String {
         'i' => rng
             .pick(&[
                 "int.min_value", "int.max_value", "(0 #Int- 1)", "0", "1", "2", "63", "64", "65", "100",
-                "(0 #Int- 64)", "4294967296", "1114111", "1114112", "55296", "255", "256", "36", "37",
+                "(0 #Int- 64)", "4294967296", "1114111", "1114112", "55296", "255", "256", "36", "37", "257", "1024", "3", "300",
             ])
             .to_string(),
         'f' => rng
@@ -78,9 +78,17 @@ fn boundary(rng: &mut Rng, kind: char) -> String {
                 "((0.0 #Float- 1.0) #Float/ 0.0)", "1.0e308", "1.0e-320", "9.3e18", "0.5",
             ])
             .to_string(),
-        's' => rng
-            .pick(&["\"\"", "\"a\"", "\"é\"", "\"日本語\"", "\"abc def\"", "\"  x  \"", "\"-1\"", "\"zz\"", "\"9223372036854775808\"", "\"1e999\""])
-            .to_string(),
+        's' => {
+            if rng.chance(1, 6) {
+                // long strings with a multi-byte character around the usual buffer sizes
+                let n = *rng.pick(&[254usize, 255, 256, 257, 1023, 1024, 4095]);
+                let fill = *rng.pick(&["a", " ", "0"]);
+                format!("\"{}{}\"", fill.repeat(n), *rng.pick(&["å", "日本", "é\u{301}", ""]))
+            } else {
+                rng.pick(&["\"\"", "\"a\"", "\"é\"", "\"日本語\"", "\"abc def\"", "\"  x  \"", "\"-1\"", "\"zz\"", "\"9223372036854775808\"", "\"1e999\""])
+                    .to_string()
+            }
+        }
         'c' => {
             // (a multi-byte char literal makes the tokenizer panic: recorded finding, kept rare)
             if rng.chance(1, 40) {
@@ -477,9 +485,16 @@ fn clip(s: &str) -> String {
 pub fn all_prim_programs() -> Vec<String> {
     fn values(kind: char) -> Vec<&'static str> {
         match kind {
-            'i' => vec!["int.min_value", "int.max_value", "(0 #Int- 1)", "0", "1", "2", "63", "64", "65", "100", "(0 #Int- 64)", "4294967296", "1114111", "1114112", "55296", "255", "256", "36", "37"],
+            'i' => vec!["int.min_value", "int.max_value", "(0 #Int- 1)", "0", "1", "2", "63", "64", "65", "100", "(0 #Int- 64)", "4294967296", "1114111", "1114112", "55296", "255", "256", "36", "37", "257", "1024", "300"],
             'f' => vec!["0.0", "1.5", "(0.0 #Float- 1.5)", "(0.0 #Float/ 0.0)", "(1.0 #Float/ 0.0)", "((0.0 #Float- 1.0) #Float/ 0.0)", "1.0e308", "1.0e-320", "9.3e18", "0.5"],
-            's' => vec!["\"\"", "\"a\"", "\"é\"", "\"日本語\"", "\"abc def\"", "\"  x  \"", "\"-1\"", "\"zz\"", "\"9223372036854775808\"", "\"1e999\""],
+            's' => {
+                let mut v = vec!["\"\"", "\"a\"", "\"é\"", "\"日本語\"", "\"abc def\"", "\"  x  \"", "\"-1\"", "\"zz\"", "\"9223372036854775808\"", "\"1e999\""];
+                for n in [255usize, 256, 1023] {
+                    let lit: &'static str = Box::leak(format!("\"{}å日\"", "a".repeat(n)).into_boxed_str());
+                    v.push(lit);
+                }
+                v
+            }
             'c' => vec!["'a'", "'é'", "'日'", "'0'", "' '", "'z'"],
             'b' => vec!["0b", "1b", "7b", "8b", "9b", "255b", "128b"],
             'A' => vec!["[1]", "[1, 2, 3]", "(array.slice [1] 0 0)"],
